@@ -272,6 +272,10 @@ def search_failing(prim, prop, corr, mons, seed, budget_s=90):
             pre = hist[:len(hist) - cut] if cut else hist
             if len(pre) >= 1:
                 attempts.append((["dfsfrom", "5"], "\n".join(pre) + "\n"))
+        for cut in (0, 1, 3):
+            pre = hist[:len(hist) - cut] if cut else hist
+            if len(pre) >= 1:
+                attempts.append((["randomfrom", str(seed + cut), "20000", "14"], "\n".join(pre) + "\n"))
     spec = PRIMS[prim]
     th = spec["thorough"]
     for nl in spec["new_lines"]:
